@@ -287,7 +287,9 @@ def _command(ctx, chk, compute):
     ot = output_table(ctx, d)
     if ot is not None and qdir is not None:
         dump, labels, z = ot
-        rev = _reversal_parity(z, dump.args[0])
+        rev = z.rev
+        if all(strip_tolist(a)[1] is True for a in z.args):
+            rev = not rev              # every column individually reversed
         final = qdir if not rev else ("DESC" if qdir == "ASC" else "ASC")
         chk.ob("C18.O5", final == "DESC", where_of(d, dump), "query ORDER BY level %s, table %s -> rows %s" % (qdir, "reversed" if rev else "not reversed", final),
                "rows from highest to lowest level", key="dump_simulated_recession|table-order",
